@@ -26,6 +26,7 @@ import (
 	_ "panmc/checks/c17"
 	_ "panmc/checks/c18"
 	_ "panmc/checks/c19"
+	_ "panmc/checks/c20"
 )
 
 func main() {
